@@ -73,15 +73,30 @@ theorem recvOk_of_current_none {xfers : List Xfer} {r : Receiver} (h : r.current
 `RecvOk` is preserved, and a delivery carries exactly the transfer's base tick, tick, data and
 checksum. -/
 theorem recv_step_safe {xfers : List Xfer} (huniq : UniqueTicks xfers) {r : Receiver}
-    (hr : RecvOk xfers r) {x : Xfer} (hx : x ∈ xfers) (hb : inI32 x.base) (hne : x.bytes ≠ [])
+    (hr : RecvOk xfers r) {x : Xfer} (hx : x ∈ xfers) (hb : inI32 x.base)
     {ms : List Msg} (hms : x.chunks = .ok ms) {m : Msg} (hm : m ∈ ms) :
     RecvOk xfers (r.step m).1 ∧
-      ∀ d, (r.step m).2.1 = .ok (some d) →
-        d = { deltaTick := x.base, tick := x.tick, dataCrc := some (x.bytes, x.crc) } := by
+      ∀ d, (r.step m).2.1 = .ok (some d) → d = delivery x.tick x.base x.crc x.bytes := by
   have hform := deltaChunks_form' hms
   cases hform with
-  | empty hd _ => exact (hne hd).elim
+  | empty hd hmsgs =>
+    rw [hmsgs] at hm
+    have hm' : m = .empty x.tick (wrapSub x.tick x.base) := by simpa using hm
+    subst hm'
+    by_cases hc : r.canReceive x.tick = true
+    · simp only [Receiver.step, Receiver.snapEmpty, hc, not_true_eq_false, if_false]
+      refine ⟨recvOk_of_current_none rfl, ?_⟩
+      intro d hd'
+      simp only [Except.ok.injEq, Option.some.injEq] at hd'
+      rw [← hd', wrapSub_wrapSub _ _ hb]
+      simp [delivery, hd]
+    · simp only [Receiver.step, Receiver.snapEmpty, hc]
+      exact ⟨hr, fun d hd => by simp at hd⟩
   | single h1 hmsgs =>
+    have hne : x.bytes ≠ [] := by
+      intro e
+      have : numParts x.bytes.length = 0 := (numParts_eq_zero _).mpr (by rw [e]; rfl)
+      omega
     rw [hmsgs] at hm
     have hm' : m = .single x.tick (wrapSub x.tick x.base) x.crc x.bytes := by simpa using hm
     subst hm'
@@ -91,9 +106,14 @@ theorem recv_step_safe {xfers : List Xfer} (huniq : UniqueTicks xfers) {r : Rece
       intro d hd
       simp only [Except.ok.injEq, Option.some.injEq] at hd
       rw [← hd, wrapSub_wrapSub _ _ hb]
+      simp [delivery, hne]
     · simp only [Receiver.step, Receiver.snapSingle, hc]
       exact ⟨hr, fun d hd => by simp at hd⟩
   | multi h2 hmsgs =>
+    have hne : x.bytes ≠ [] := by
+      intro e
+      have : numParts x.bytes.length = 0 := (numParts_eq_zero _).mpr (by rw [e]; rfl)
+      omega
     rw [hmsgs] at hm
     obtain ⟨k, hk, rfl⟩ := List.mem_map.mp hm
     have hk := List.mem_range.mp hk
@@ -121,7 +141,7 @@ theorem recv_step_safe {xfers : List Xfer} (huniq : UniqueTicks xfers) {r : Rece
           refine ⟨recvOk_of_current_none rfl, ?_⟩
           intro d hd
           simp only [Except.ok.injEq, Option.some.injEq] at hd
-          exact hd.symm
+          rw [← hd]; simp [delivery, hne]
         · rw [step_mid_new hb hn hmid hk hs hall]
           refine ⟨?_, fun d hd => by simp at hd⟩
           intro c' hc'
@@ -152,11 +172,15 @@ theorem recv_step_safe {xfers : List Xfer} (huniq : UniqueTicks xfers) {r : Rece
 
 /-- What the protocol layer needs from the snapshot layer: these are the statements of C09
 (applying a created delta reproduces the target) and C10 (a written delta reads back), plus the
-fact that a written delta is never zero bytes long (it starts with a three-integer header). -/
+fact that a written delta is never zero bytes long (it starts with a three-integer header), and
+that the cleared delta of a `SnapEmpty` means "same as base". -/
 structure Laws {S D : Type} (ops : Ops S D) : Prop where
   apply_create : ∀ a b d, ops.create a b = some d → ops.apply a d = .ok b
   read_write : ∀ d bs, ops.write d = some bs → ops.read bs = .ok d
   write_nonempty : ∀ d bs, ops.write d = some bs → bs ≠ []
+  /-- "same as base": applying the cleared delta (`SnapEmpty`) to a snapshot gives any snapshot the
+  sender considers the same -/
+  same_clear : ∀ a b, ops.same a b = true → ops.apply a ops.clear = .ok b
 
 /-- `sent` maps each tick to one snapshot -/
 def Functional {S : Type} (sent : List (Int × S)) : Prop :=
@@ -169,38 +193,50 @@ theorem keepFrom_subset {S : Type} (snaps : List (Stored S)) (t : Int) :
 section
 variable {S D : Type} {ops : Ops S D} {sent : List (Int × S)}
 
-theorem finishDelta_safe (laws : Laws ops) {st : Storage S}
+theorem finishDelta_safe {st : Storage S}
     (hst : ∀ s', s' ∈ st.snaps → (s'.tick, s'.snap) ∈ sent)
-    {tick : Int} {s base : S} {d : D} (hs : (tick, s) ∈ sent) (hcreate : ops.create base s = some d)
+    {tick : Int} {s base : S} {d : D} {crc : Option Int} (hs : (tick, s) ∈ sent)
+    (happly : ops.apply base d = .ok s) (hcrc : ∀ c, crc = some c → c = ops.crc s)
     (w : Bool) :
-    (∀ s', s' ∈ (st.finishDelta ops (some (ops.crc s)) tick base d w).1.snaps → (s'.tick, s'.snap) ∈ sent) ∧
-    (st.finishDelta ops (some (ops.crc s)) tick base d w).2.1 = .ok s ∧
-    (st.finishDelta ops (some (ops.crc s)) tick base d w).1.ackTick = some tick := by
+    (∀ s', s' ∈ (st.finishDelta ops crc tick base d w).1.snaps → (s'.tick, s'.snap) ∈ sent) ∧
+    (st.finishDelta ops crc tick base d w).2.1 = .ok s ∧
+    (st.finishDelta ops crc tick base d w).1.ackTick = some tick := by
+  have hmemb : ∀ s', s' ∈ (if (({ tick := tick, snap := s } : Stored S) :: st.snaps).length > maxStored
+        then (({ tick := tick, snap := s } : Stored S) :: st.snaps).dropLast
+        else ({ tick := tick, snap := s } : Stored S) :: st.snaps) → (s'.tick, s'.snap) ∈ sent := by
+    intro s' hs'
+    have hmem : s' ∈ ({ tick := tick, snap := s } : Stored S) :: st.snaps := by
+      split at hs'
+      · exact List.dropLast_subset _ hs'
+      · exact hs'
+    rcases List.mem_cons.mp hmem with h | h
+    · subst h; exact hs
+    · exact hst s' h
   unfold Storage.finishDelta
-  rw [laws.apply_create _ _ _ hcreate]
-  simp only [ne_eq, not_true_eq_false, decide_false, Bool.false_eq_true, if_false, and_self, and_true]
-  intro s' hs'
-  have hmem : s' ∈ ({ tick := tick, snap := s } : Stored S) :: st.snaps := by
-    split at hs'
-    · exact List.dropLast_subset _ hs'
-    · exact hs'
-  rcases List.mem_cons.mp hmem with h | h
-  · subst h; exact hs
-  · exact hst s' h
+  rw [happly]
+  cases crc with
+  | none =>
+    simp only [Bool.false_eq_true, if_false, and_self, and_true]
+    exact hmemb
+  | some c =>
+    have hc := hcrc c rfl
+    subst hc
+    simp only [ne_eq, not_true_eq_false, decide_false, Bool.false_eq_true, if_false, and_self, and_true]
+    exact hmemb
 
 /-- `Storage::add_delta` with the delta of one of the sender's transfers: whatever it stores is the
 sender's snapshot for that tick; success sets `ack_tick`, failure leaves it or clears it. -/
-theorem addDelta_safe (laws : Laws ops) (hfun : Functional sent) {st : Storage S}
+theorem addDelta_safe (hfun : Functional sent) {st : Storage S}
     (hst : ∀ s', s' ∈ st.snaps → (s'.tick, s'.snap) ∈ sent)
-    {tick base : Int} {s baseSnap : S} {d : D} (hs : (tick, s) ∈ sent)
+    {tick base : Int} {s baseSnap : S} {d : D} {crc : Option Int} (hs : (tick, s) ∈ sent)
     (hbase : (base = -1 ∧ baseSnap = ops.empty) ∨ (0 ≤ base ∧ (base, baseSnap) ∈ sent))
-    (hcreate : ops.create baseSnap s = some d) :
-    (∀ s', s' ∈ (st.addDelta ops (some (ops.crc s)) base tick d).1.snaps → (s'.tick, s'.snap) ∈ sent) ∧
-    (∀ s', (st.addDelta ops (some (ops.crc s)) base tick d).2.1 = .ok s' →
-      s' = s ∧ (st.addDelta ops (some (ops.crc s)) base tick d).1.ackTick = some tick) ∧
-    (∀ e, (st.addDelta ops (some (ops.crc s)) base tick d).2.1 = .error e →
-      (st.addDelta ops (some (ops.crc s)) base tick d).1.ackTick = st.ackTick ∨
-      (st.addDelta ops (some (ops.crc s)) base tick d).1.ackTick = none) := by
+    (happly : ops.apply baseSnap d = .ok s) (hcrc : ∀ c, crc = some c → c = ops.crc s) :
+    (∀ s', s' ∈ (st.addDelta ops crc base tick d).1.snaps → (s'.tick, s'.snap) ∈ sent) ∧
+    (∀ s', (st.addDelta ops crc base tick d).2.1 = .ok s' →
+      s' = s ∧ (st.addDelta ops crc base tick d).1.ackTick = some tick) ∧
+    (∀ e, (st.addDelta ops crc base tick d).2.1 = .error e →
+      (st.addDelta ops crc base tick d).1.ackTick = st.ackTick ∨
+      (st.addDelta ops crc base tick d).1.ackTick = none) := by
   unfold Storage.addDelta
   by_cases h1 : st.newestTick ≥ tick
   · simp only [h1, if_true]
@@ -225,8 +261,8 @@ theorem addDelta_safe (laws : Laws ops) (hfun : Functional sent) {st : Storage S
           have := hfun _ hd0 _ hb.2 htick
           exact congrArg Prod.snd this
         rw [this]
-        obtain ⟨f1, f2, f3⟩ := finishDelta_safe (ops := ops) (sent := sent) laws
-          (st := { st with snaps := keepFrom st.snaps base }) hkept hs hcreate false
+        obtain ⟨f1, f2, f3⟩ := finishDelta_safe (ops := ops) (sent := sent)
+          (st := { st with snaps := keepFrom st.snaps base }) hkept hs happly hcrc false
         refine ⟨f1, ?_, ?_⟩
         · intro s' h; rw [f2] at h; injection h with h; exact ⟨h.symm, f3⟩
         · intro e h; rw [f2] at h; cases h
@@ -238,7 +274,7 @@ theorem addDelta_safe (laws : Laws ops) (hfun : Functional sent) {st : Storage S
       · exact h
       · omega
     subst hb
-    obtain ⟨f1, f2, f3⟩ := finishDelta_safe (ops := ops) (sent := sent) laws hst hs hcreate
+    obtain ⟨f1, f2, f3⟩ := finishDelta_safe (ops := ops) (sent := sent) hst hs happly hcrc
       (decide (base ≠ -1))
     refine ⟨f1, ?_, ?_⟩
     · intro s' h; rw [f2] at h; injection h with h; exact ⟨h.symm, f3⟩
